@@ -203,9 +203,13 @@ let is_moving (o : lop0) = match o with
 
 let cmp_name = function CEq -> "eq" | CNe -> "ne" | CLt -> "lt" | CLe -> "le" | CGt -> "gt" | CGe -> "ge"
 
-let run_case (buf : Buffer.t) (cid : string) (c : hcfg) (ops : string list list) : unit =
+let rec take_n n l = if n <= 0 then [] else match l with [] -> [] | x :: r -> x :: take_n (n - 1) r
+
+(* fault > 0: the fault-th fallible event of the case throws (C09).  The buffers are the harness's own storage: building one is
+   not a fallible event on either side.  Returns the number of fallible events of the case. *)
+let run_case (buf : Buffer.t) (cid : string) (c : hcfg) (fault : int) (ops : string list list) : int =
   let m = mcfg c in
-  let st = ref (st0 None) in
+  let st = ref (st0 (if fault > 0 then Some (nat_of_int fault) else None)) in
   let px = { classes = Hashtbl.create 16; nclass = 0 } in
   let refp = ref (List.map (fun _ -> None) !st.s_arrs) in
   let dead = ref false in
@@ -231,16 +235,38 @@ let run_case (buf : Buffer.t) (cid : string) (c : hcfg) (ops : string list list)
       | Some (Step o) ->
         let pre = !st in
         let moved_out = (match o with ZMoveOut r -> (match read_operand m (OpRef { rf_slot = r; rf_idx = O }) pre with Ok (v, _) -> Some (i v) | _ -> None) | _ -> None) in
-        let (out, st') = run_op0 m o pre in
+        let (out, st') =
+          (match o with
+           | ZBuf _ ->
+             let (out, st') = run_op0 m o { pre with s_fault = None } in
+             (out, { st' with s_fault = pre.s_fault; s_fallible = pre.s_fallible })
+           | _ -> run_op0 m o pre) in
         (match out with
          | OutErr (EBadSlot | EDomain) -> Buffer.add_string buf (Printf.sprintf "O %s %d %s skipped\n" cid !step name)
          | OutErr e -> Buffer.add_string buf (Printf.sprintf "X %s %d error %s\n" cid !step (err_name e)); dead := true
-         | OutThrew -> Buffer.add_string buf (Printf.sprintf "X %s %d error model-threw-without-a-fault\n" cid !step); dead := true
+         | OutThrew when fault = 0 -> Buffer.add_string buf (Printf.sprintf "X %s %d error model-threw-without-a-fault\n" cid !step); dead := true
+         | OutThrew ->
+           st := st';
+           let n_new = List.length st'.s_ledger - List.length pre.s_ledger in
+           let fresh = take_n n_new st'.s_ledger in
+           let at_alloc = List.exists (fun e -> match e with EvThrow SAlloc -> true | _ -> false) fresh in
+           (* model-only line: the site of the fault (what the exclusion of C09_rank0_fault_safety is stated on) *)
+           List.iter (fun e -> match e with
+               | EvThrow w ->
+                 Buffer.add_string buf (Printf.sprintf "T %s %d site=%s\n" cid !step
+                   (match w with SAlloc -> "alloc" | SCtorElem -> "ctor-elem" | SAssignElem -> "assign-elem"
+                               | SReextElem -> "reextent-elem" | SReextMove -> "reextent-move"))
+               | _ -> ()) (List.rev fresh);
+           Buffer.add_string buf (Printf.sprintf "O %s %d %s threw at=%s\n" cid !step name (if at_alloc then "a" else "e"));
+           let show_allocs = not (name = "swap" && (match List.rev toks with "1" :: _ when List.length toks = 4 -> false | _ -> true)) in
+           if not (print_state buf c cid !step px st' false show_allocs) then dead := true
          | OutOk ->
            st := st';
-           refp := vstep0 m o !refp;
-           if abs_state st' <> !refp then
-             Buffer.add_string buf (Printf.sprintf "V %s %d reference-interpreter-mismatch %s\n" cid !step name);
+           if fault = 0 then begin
+             refp := vstep0 m o !refp;
+             if abs_state st' <> !refp then
+               Buffer.add_string buf (Printf.sprintf "V %s %d reference-interpreter-mismatch %s\n" cid !step name)
+           end;
            Buffer.add_string buf (Printf.sprintf "O %s %d %s ok\n" cid !step name);
            (match moved_out with Some v -> Buffer.add_string buf (Printf.sprintf "Q %s %d moved_out v=%d\n" cid !step v) | None -> ());
            let show_allocs = not (name = "swap" && (match List.rev toks with "1" :: _ when List.length toks = 4 -> false | _ -> true)) in
@@ -260,25 +286,27 @@ let run_case (buf : Buffer.t) (cid : string) (c : hcfg) (ops : string list list)
      | Some e -> Buffer.add_string buf (Printf.sprintf "X %s end error %s\n" cid (err_name e))
      | None ->
        let outstanding = List.length (List.filter (fun (b : block) -> b.b_live && i b.b_owner <> i std_alloc) !st.s_blocks) in
-       Buffer.add_string buf (Printf.sprintf "Z %s alive=%d outstanding=%d\n" cid
-         (if tracked c then i (alive_cells !st) else 0) outstanding))
+       Buffer.add_string buf (Printf.sprintf "Z %s alive=%d outstanding=%d fallible=%d\n" cid
+         (if tracked c then i (alive_cells !st) else 0) outstanding (i !st.s_fallible)))
   end;
-  Buffer.add_string buf (Printf.sprintf "E %s\n" cid)
+  Buffer.add_string buf (Printf.sprintf "E %s\n" cid);
+  i !st.s_fallible
 
 let words (s : string) = List.filter (fun w -> w <> "") (String.split_on_char ' ' (String.trim s))
 
 let run_stdin () =
   let buf = Buffer.create 65536 in
-  let cid = ref "" and cfg = ref (parse_cfg "") and ops = ref [] in
+  let cid = ref "" and cfg = ref (parse_cfg "") and ops = ref [] and fault = ref 0 in
   (try
      while true do
        let line = input_line stdin in
        match words line with
-       | "case" :: id :: _ -> cid := id; ops := []; cfg := parse_cfg ""
+       | "case" :: id :: _ -> cid := id; ops := []; cfg := parse_cfg ""; fault := 0
+       | "fault" :: k :: _ -> fault := int_of_string k
        | "cfg" :: _ -> cfg := parse_cfg line
        | "op" :: toks -> ops := toks :: !ops
        | "end" :: _ ->
-         run_case buf !cid !cfg (List.rev !ops);
+         ignore (run_case buf !cid !cfg !fault (List.rev !ops));
          print_string (Buffer.contents buf); Buffer.clear buf
        | _ -> ()
      done
@@ -313,6 +341,7 @@ let gen_history (c : hcfg) (profile : string) (maxops : int) (disabled : string 
     | "c05" -> (5, 3, 4, 20, 3, 4)
     | "c07" -> (6, 3, 4, 4, 24, 3)
     | "c10" -> (9, 12, 14, 2, 1, 9)
+    | "c09" -> (8, 9, 12, 7, 0, 12)
     | _ -> (7, 7, 9, 10, 8, 5) in
   let choose (l : (int * string * (unit -> string list)) list) : string list option =
     let l = List.filter (fun (w, name, _) -> w > 0 && ok name) l in
@@ -371,7 +400,8 @@ let gen_history (c : hcfg) (profile : string) (maxops : int) (disabled : string 
     | `Ref -> let q = pick rf in
       choose [
         (8, "ref_assign_ref", (fun () -> [ "ref_assign_ref"; q; pick rf; form 8 ]));
-        (6, "ref_assign_elem", (fun () -> [ "ref_assign_elem"; q; string_of_int (gen_val ()); form 5 ]));
+        (6, "ref_assign_elem", (fun () -> [ "ref_assign_elem"; q; string_of_int (gen_val ());
+                                            (if profile = "c09" then pick [ "0"; "1"; "2"; "4" ] else form 5) ]));   (* form 3 builds a temporary element inside the call: one more fallible event than the operation has *)
         (2, "ref_fill", (fun () -> [ "ref_assign_elem"; q; string_of_int (gen_val ()); "5" ]));
         (3, "ref_assign_moved", (fun () -> [ "ref_assign_moved"; q; pick rf; form 3 ]));
         (4, "ref_swap", (fun () -> [ "ref_swap"; q; pick rf; form 2 ]));
@@ -408,15 +438,31 @@ let gen_history (c : hcfg) (profile : string) (maxops : int) (disabled : string 
   done;
   List.rev !hist
 
+let emit_case (cid : string) (c : hcfg) (fault : int) (h : string list list) =
+  Printf.printf "case %s\n%s\n" cid (cfg_line c);
+  if fault > 0 then Printf.printf "fault %d\n" fault;
+  List.iter (fun toks -> Printf.printf "op %s\n" (String.concat " " toks)) h;
+  print_string "end\n"
+
 let gen (sd : int) (count : int) (t : int) (maxops : int) (prefix : string) (profile : string) (disabled : string list)
-    (alloc : string) =
+    (alloc : string) (faults : int) =
   seed sd;
   let c = { (parse_cfg alloc) with t } in
+  let scratch = Buffer.create 4096 in
   for k = 1 to count do
     let h = gen_history c profile maxops disabled in
-    Printf.printf "case %s%d\n%s\n" prefix k (cfg_line c);
-    List.iter (fun toks -> Printf.printf "op %s\n" (String.concat " " toks)) h;
-    print_string "end\n"
+    let cid = Printf.sprintf "%s%d" prefix k in
+    if faults = 0 then emit_case cid c 0 h
+    else begin
+      (* one run per injection point: the fallible events of the fault-free run are counted first *)
+      Buffer.clear scratch;
+      let total = run_case scratch cid c 0 h in
+      emit_case (cid ^ ".f0") c 0 h;
+      let points =
+        if total <= faults then List.init total (fun j -> j + 1)
+        else List.sort_uniq compare (1 :: total :: List.init (faults - 2) (fun _ -> 1 + rnd total)) in
+      List.iter (fun j -> emit_case (Printf.sprintf "%s.f%d" cid j) c j h) points
+    end
   done
 
 let () =
@@ -431,5 +477,5 @@ let () =
     gen (int_of_string (opt "--seed" "1" rest)) (int_of_string (opt "--count" "10" rest)) (int_of_string (opt "--t" "1" rest))
       (int_of_string (opt "--maxops" "14" rest)) (opt "--prefix" "g" rest) (opt "--profile" "mix" rest)
       (List.filter (fun s -> s <> "") (String.split_on_char ',' (opt "--disable" "" rest)))
-      (opt "--alloc" "" rest)
+      (opt "--alloc" "" rest) (int_of_string (opt "--faults" "0" rest))
   | _ -> prerr_endline "usage: driver_rank0 gen|run ..."; exit 2
